@@ -1,0 +1,25 @@
+//go:build !verif
+
+package risc
+
+// Verification hooks are compiled out without the "verif" build tag.
+
+const (
+	VerifKindExec = iota + 1
+	VerifKindDecode
+	VerifKindFlush
+	VerifKindRegWB
+	VerifKindStore
+	VerifKindDispatch
+	VerifKindFill
+	VerifKindEvict
+	VerifKindWriteBack
+	VerifKindReturn
+)
+
+type verifState struct{}
+
+func (ctx *Context) VerifTick(site, cycle int)                          {}
+func (ctx *Context) VerifExec(seq, pc int32, exe Execution, mem []int8) {}
+func (ctx *Context) VerifEvent(kind int, seq, a, b int32)               {}
+func (ctx *Context) VerifStore(seq int32, exe Execution)                {}
